@@ -82,6 +82,8 @@ def run(ck):
         fn = [f for f in prog.find(HH + "Collection::" + name, 1) if len(f.params) == 1 and ("shared_ptr" in f.params[0]["type"] or "Raw" in f.params[0]["type"]) and not f.d.get("inst")][0]
         muts = [e for e in fn.calls(lambda e: strip_tmpl((e.get("recv") or {}).get("f") or "") == HH + "Collection::" + fld and lib.is_stl_mutation(e))]
         names = sorted({e.base_callee().rsplit("::", 1)[1] for e in muts})
+        # a store through an iterator / reference into the collection replaces what the first occurrence put there
+        names += sorted({how for fld_, how, _e in lib.direct_writes(fn) if how.startswith("alias-assign") and strip_tmpl(fld_) == HH + "Collection::" + fld})
         ck.ob("C16-R2", "Collection::%s/keeps-first" % name, names == ["insert"], fn.loc, fn,
               "stores with %s" % names if names == ["insert"] else "stores with %s: a later header with the same name replaces the first one" % names)
     hs = lib.single(prog, H + "Private::HeadersStep::apply")
